@@ -253,6 +253,9 @@ func (e *Engine) SetLongest(longest bool) {
 	if e.boundedBacktracker != nil {
 		e.boundedBacktracker.SetLongest(longest)
 	}
+	if e.asciiBoundedBacktracker != nil {
+		e.asciiBoundedBacktracker.SetLongest(longest)
+	}
 }
 
 // getSearchState retrieves a SearchState, trying the local GC-proof cache first.
